@@ -47,11 +47,20 @@ def run_schedule(fns, start=0, switches=(), gran="line", timeout=120.0):
     E = mon.events
     tids = {}
 
+    visits = [{}, {}]
+
     def cb_line(code, line):
         if MARK not in code.co_filename:
             return mon.DISABLE
         tid = tids.get(threading.get_ident())
         if tid is not None:
+            if gran == "line3":
+                # bounded revisits: a source line is a scheduling point the first three times a thread executes it
+                key = (code, line)
+                c = visits[tid].get(key, 0) + 1
+                visits[tid][key] = c
+                if c > 3:
+                    return
             point(tid)
 
     def cb_start(code, offset):
@@ -86,7 +95,7 @@ def run_schedule(fns, start=0, switches=(), gran="line", timeout=120.0):
 
     if mon.get_tool(TOOL) is None:
         mon.use_tool_id(TOOL, "vt-threadsched")
-    if gran == "line":
+    if gran in ("line", "line3"):
         mon.register_callback(TOOL, E.LINE, cb_line)
         mon.set_events(TOOL, E.LINE)
     else:
